@@ -113,3 +113,21 @@ func setk(m map[string]string, k, v string) map[string]string {
 	m[k] = v
 	return m
 }
+
+// ConflictFree drops names that are a directory prefix of another name (or
+// have one), so that the set is representable by the file store.
+func ConflictFree(names []string) []string {
+	var out []string
+	for _, n := range names {
+		ok := true
+		for _, o := range out {
+			if len(n) > len(o) && n[:len(o)+1] == o+"/" || len(o) > len(n) && o[:len(n)+1] == n+"/" {
+				ok = false
+			}
+		}
+		if ok {
+			out = append(out, n)
+		}
+	}
+	return out
+}
